@@ -261,6 +261,8 @@ FAIL_ITEMS = [
     ('chunks_mut_u0_nonempty', '{ let mut b = [1u8, 2]; GA::<u8, U0>::chunks_from_slice_mut(&mut b).1.len() }'),
     ('chunks_u0_zst_nonempty', 'GA::<(), U0>::chunks_from_slice(&[()]).1.len()'),
     ('const_transmute_size_mismatch', 'unsafe { generic_array::const_transmute::<[u8; 3], u32>([1, 2, 3]) as usize }'),
+    ('const_transmute_source_larger', 'unsafe { generic_array::const_transmute::<[u8; 5], u32>([1, 2, 3, 4, 5]) as usize }'),
+    ('const_transmute_array_to_shorter_native', 'unsafe { generic_array::const_transmute::<GA<u8, U3>, [u8; 2]>(GA::<u8, U3>::from_array([1, 2, 3]))[0] as usize }'),
     ('try_from_slice_unwrap_err', 'match GA::<u8, U3>::try_from_slice(&[1u8, 2]) { Ok(a) => a.as_slice().len(), Err(_) => panic!("LengthError as expected") }'),
 ]
 
